@@ -4,6 +4,7 @@ package vharness
 
 import (
 	"fmt"
+	"strings"
 
 	"github.com/douban/gobeansdb/store"
 	"github.com/douban/gobeansdb/vshim/vsched"
@@ -48,6 +49,12 @@ func c13Exec(x *XSpec, s *vsched.Sched, hist []Op, wantDump bool) (*Mismatch, st
 			mm = Battery1(m, md, o.Key, i)
 		default:
 			mm = Step(m, md, o, i)
+			if mm != nil && mm.Class == "reply" && o.K == "del" && strings.HasPrefix(mm.Want, "NOT_FOUND") && strings.HasPrefix(mm.Got, "DELETED") {
+				mm.Class = "reply-delete-of-absent-key-answered-deleted"
+			}
+			if mm != nil && mm.Class == "reply" && o.K == "del" && strings.HasPrefix(mm.Want, "DELETED") && strings.HasPrefix(mm.Got, "NOT_FOUND") {
+				mm.Class = "reply-delete-of-live-key-answered-not-found"
+			}
 			if v := md.M[o.Key]; v != nil && o.Key != "a" {
 				v.VerFree = true
 			}
@@ -102,10 +109,6 @@ func c13Specs(tier string) []*XSpec {
 		al := perKey(coll, Op{K: "set", V: "s"}, Op{K: "del"}, Op{K: "get"})
 		al = append(al, Op{K: "set", V: "s", Key: keys[len(keys)-1]})
 		al = append(al, Op{K: "flush"}, Op{K: "restart", A: []int{0}}, Op{K: "restart", A: []int{1}})
-		if tier != "quick" {
-			// hint dump + merge (registers every same-hash group it sees in the collision table), exit without Close
-			al = append(al, Op{K: "dump"}, Op{K: "merge"}, Op{K: "restart", A: []int{4}})
-		}
 		return &XSpec{Property: "C13", Name: fmt.Sprintf("%s-k%d", c.Name, len(coll)), Cfg: c, Alphabet: al, Depth: d, Keys: keys, Exec: c13Exec,
 			Prune: func(hist []Op, op Op) bool {
 				// at most one GC per history, at most two restarts
